@@ -135,11 +135,51 @@ def r3_index_loops(text):
             bind = "let %s = %s;" % (pv, elem)
         else:
             bind = "let %s = &%s;" % (pv, elem)
-        if kind == "enum":
-            head = "let mut __n%d: usize = 0; while __n%d < %s.len() { let %s = __n%d; let __k%d = __n%d; __n%d += 1; %s" % (k, k, expr, ivar, k, k, k, k, bind)
+        # the loop body: if it has no `continue`, advance the index at the END of the body (so that
+        # the index still names the current element at a `break`); otherwise at the top
+        op = mm.end() - 1
+        cl = rustscan.match_brace(out, rustscan.code_mask(out), op)
+        body_txt = out[op + 1:cl]
+        has_continue = re.search(r"\bcontinue\b", strip_comments(body_txt)) is not None
+        if has_continue:
+            adv_top, adv_end = "__n%d += 1; " % k, ""
         else:
-            head = "let mut __n%d: usize = 0; while __n%d < %s.len() { let __k%d = __n%d; __n%d += 1; %s" % (k, k, expr, k, k, k, bind)
-        out = out[:mm.start()] + head + out[mm.end():]
+            adv_top, adv_end = "", " __n%d += 1; " % k
+        if kind == "enum":
+            head = "let mut __n%d: usize = 0; while __n%d < %s.len() { let %s = __n%d; let __k%d = __n%d; %s%s" % (k, k, expr, ivar, k, k, k, adv_top, bind)
+        else:
+            head = "let mut __n%d: usize = 0; while __n%d < %s.len() { let __k%d = __n%d; %s%s" % (k, k, expr, k, k, adv_top, bind)
+        out = out[:mm.start()] + head + body_txt + adv_end + out[cl:]
+        n += 1
+    return out, n
+
+
+def r3_fold(text):
+    """R3b: `E.iter().fold(INIT, |acc, x| BODY)` -> `{ let mut acc = INIT; index loop { acc = BODY; } acc }`
+    (the textbook desugaring of Iterator::fold over a slice)."""
+    n = 0
+    out = text
+    while True:
+        mask = rustscan.code_mask(out)
+        mm = None
+        for m in re.finditer(r"([\w.]+)\.iter\(\)\.fold\(", out):
+            if mask[m.start()]:
+                mm = m
+                break
+        if not mm:
+            break
+        op = mm.end() - 1
+        cl = rustscan.match_brace(out, mask, op)
+        inner = out[op + 1:cl]
+        m2 = re.match(r"\s*(.*?),\s*\|(\w+),\s*(\w+)\|\s*(.*)$", inner, re.S)
+        if not m2:
+            raise Drift("R3b: unsupported fold shape: " + inner[:80])
+        init, acc, x, body = m2.group(1), m2.group(2), m2.group(3), m2.group(4).strip()
+        expr = mm.group(1)
+        k = n
+        rep = ("{ let mut %s = %s; let mut __f%d: usize = 0; while __f%d < %s.len() { let %s = &%s[__f%d]; %s = %s; __f%d += 1; } %s }"
+               % (acc, init, k, k, expr, x, expr, k, acc, body, k, acc))
+        out = out[:mm.start()] + rep + out[cl + 1:]
         n += 1
     return out, n
 
@@ -301,6 +341,29 @@ class Decl:
             applied.append(rw.rid)
         unit.note_item(self.file, "%s %s" % (self.kind, self.name), it, applied)
         return (self.attrs + "\n" if self.attrs else "") + text + "\n"
+
+
+class ImplBlock:
+    """A whole (small) trait impl block copied verbatim (comments/attributes dropped), e.g. the
+    operator impls of VisualLines; `spec` is the R11 SpecImpl text giving the operators their
+    structural meaning (Verus cannot put requires/ensures on trait impl methods)."""
+
+    def __init__(self, file, container, spec="", rewrites=(), nth=0):
+        self.file, self.container, self.spec, self.rewrites, self.nth = file, container, spec, list(rewrites), nth
+
+    def emit(self, unit):
+        sf = load_source(self.file)
+        try:
+            it = sf.find_impl(self.container, self.nth)
+        except ScanError as e:
+            raise Drift(str(e))
+        text = strip_vis(strip_inner_attrs(strip_comments(it.text)))
+        applied = ["R1"] + (["R11"] if self.spec else [])
+        for rw in self.rewrites:
+            text, n = rw.apply(text, "impl " + self.container)
+            applied.append(rw.rid)
+        unit.note_item(self.file, "impl " + self.container, it, applied)
+        return text + "\n" + self.spec.strip("\n") + "\n"
 
 
 class Raw:
@@ -563,7 +626,9 @@ HEADER = """// GENERATED by /verif/vlib/unit.py from /repo/src on every run -- d
 use vstd::prelude::*;
 use vstd::std_specs::ops::*;
 use vstd::std_specs::cmp::*;
+use vstd::std_specs::convert::*;
 use core::cmp::Ordering;
+use std::ops::{Add, AddAssign, Sub};
 verus! {
 global size_of usize == 8;
 """
